@@ -58,8 +58,10 @@ def good_id(i: int) -> int:
     return 0x1000 + (i % 2)          # hosts 0/2 and 1/3 advertise the same device id (clones): still one device per address
 
 
-def good_datagram(i: int, ip: str) -> bytes:
-    return sd.reply(2 + i % 2, good_id(i), ip, 6444, f"{i:032d}", good_name(i))
+def good_datagram(i: int, ip: str):
+    # a host answers each probe; its replies may come as bare V2 packets and as V3-wrapped ones (same identity)
+    first = 2 + i % 2
+    return [sd.reply(v, good_id(i), ip, 6444, f"{i:032d}", good_name(i)) for v in (first, 5 - first, first)]
 
 
 def configs(tier):
@@ -162,7 +164,7 @@ def run_shard(shard, tier) -> Stats:
                 else:
                     for d in out[1]:
                         i = int(d.ip.rsplit(".", 1)[1]) - 10
-                        if d.id != good_id(i) or d.name != good_name(i):
+                        if d.id != good_id(i) or d.name != good_name(i) or d.version not in (2, 3):
                             prob = "device reported with another host's identity"
             if prob:
                 bads = "+".join(sorted(set(r for r in roles if r != "good"))) or "none"
